@@ -9,6 +9,7 @@ Three streams:
                stacks holding one middleware class 2-3 times with different option sets, on libraries that already hold
                structured values; every result also checked against everything handed out by earlier calls (see c07_rep.py)
 """
+from props import pubapi
 import copy
 import json
 
@@ -216,12 +217,13 @@ def apply_post(lib, post):
     """make the parsed library look like one built in code; the writer cannot print some of these blocks and raises there"""
     if post == "strip_raw":
         for b in lib.blocks:
-            b._raw = None
+            pubapi.set_backing(b, "block.raw", None)
     elif post == "strip_raw_failed":
         for b in lib.failed_blocks[-1:]:
-            b._raw = None
+            pubapi.set_backing(b, "block.raw", None)
     elif post == "foreign_block":
-        lib._blocks.insert((len(lib._blocks) + 1) // 2, foreign_block())
+        _bl = pubapi.get_backing(lib, "library.blocks")
+        _bl.insert((len(_bl) + 1) // 2, foreign_block())
     return lib
 
 
